@@ -316,6 +316,31 @@ def worker(src: str, res: runner.Result) -> None:  # pylint: disable=too-many-lo
                     res.violation("C18.filter-paths", src, detector=det, pattern=pat, paths=shorts,
                                   left=[" -> ".join(str(b.idx) for b in p) for p in out.paths])
             out.paths = list(paths)
+            # operation sequences on one result object: every order of {to_json, filter, to_json, filter'} up to 4
+            # steps - each rendering must denote the paths left at that moment (no stale rendering, no
+            # filter undone or applied twice)
+            seq_pats = sorted(pats - {".*", "", "no such path"})[:3] + [".*", "no such path"]
+            for p1 in seq_pats:
+                for p2 in (None, seq_pats[0], ".*"):
+                    for pre_json in (False, True):
+                        out.paths = list(paths)
+                        left = list(zip(paths, shorts))
+                        if pre_json:
+                            j0 = out.to_json()
+                            if j0.get("count") != len(left) or [x.get("short") for x in j0.get("paths", [])] != [s_ for _, s_ in left]:
+                                res.violation("C18.json-paths", src, detector=det, step="before-filter", listed=[x.get("short") for x in j0.get("paths", [])])
+                        for pat in (p1, p2):
+                            if pat is None:
+                                continue
+                            out.filter_paths(pat)
+                            left = [(p_, s_) for p_, s_ in left if re.search(pat, s_) is None]
+                            j1 = out.to_json()
+                            res.count("filter_json_sequences")
+                            if j1.get("count") != len(left) or [x.get("short") for x in j1.get("paths", [])] != [s_ for _, s_ in left]:
+                                res.violation("C18.json-after-filter", src, detector=det, patterns=[p1, p2], rendered_before=pre_json, paths=shorts,
+                                              expected=[s_ for _, s_ in left], count=j1.get("count"),
+                                              listed=[x.get("short") for x in j1.get("paths", [])])
+            out.paths = list(paths)
     # JSON envelope through the CLI's own output routine
     for err in (None, "some error"):
         with harness.capture() as cap:
